@@ -1,4 +1,6 @@
 SPECIFICATION Spec
 CONSTANTS OFFBYONE = FALSE
   NULLZERO = FALSE
+  KEYGEN0 = FALSE
+  DECRYPTMEMBERS = FALSE
 CHECK_DEADLOCK FALSE
